@@ -9,6 +9,7 @@ use std::io::{BufRead, BufReader, BufWriter, Write};
 
 fn check(name: &str, obs: &Value, exp: &Value) -> Vec<&'static str> {
     let mut why = vec![];
+    if obs["p"] == "uncompilable" { return why }          // the type was left out of this build (reported by the driver)
     if obs["p"] != "run" { why.push("panic"); return why }
     if name == "enc" {
         if obs["ok"] != true || obs["bytes"] != exp["bytes"] { why.push("bytes") }
@@ -44,8 +45,10 @@ fn main() {
                     let wsid = c["wsid"].as_u64().unwrap() as usize;
                     std::panic::catch_unwind(|| {
                         let enc = gen_types::run(wsid, "enc", &json!({"val": c["in"]["val"]}));
+                        if enc["p"] == "uncompilable" { return enc }
                         if enc["ok"] != true { return json!({"p": "run", "ok": false, "cls": "encode", "pos": 0}) }
                         let mut dec = gen_types::run(sid, "dec", &json!({"bytes": enc["bytes"]}));
+                        if dec["p"] == "uncompilable" { return dec }
                         dec["written"] = enc["bytes"].clone();
                         dec
                     }).unwrap_or(json!({"p": "panic"}))
@@ -72,6 +75,7 @@ fn main() {
                 let wsid = c.get("wsid").and_then(|x| x.as_u64()).map(|x| x as usize).unwrap_or(sid);
                 let ev = std::panic::catch_unwind(|| {
                     let enc = gen_types::run(wsid, "enc", &json!({"val": c["in"]["val"]}));
+                    if enc["p"] == "uncompilable" || gen_types::run(sid, "dec", &json!({"bytes": []}))["p"] == "uncompilable" { return json!({"skip": true}) }
                     let dec = if enc["ok"] == true { gen_types::run(sid, "dec", &json!({"bytes": enc["bytes"]})) } else { json!({"p":"run","ok":false,"cls":"encode","pos":0}) };
                     let dec = json!({"ok": dec["ok"] == true, "val": if dec["ok"] == true { dec["val"].clone() } else { json!([]) }, "pos": dec["pos"], "cls": dec.get("cls").cloned().unwrap_or(json!("")),
                                      "bor": dec.get("bor").cloned().unwrap_or(json!(true))});
@@ -80,6 +84,7 @@ fn main() {
                     if c["in"].get("wschema").is_some() { ev["wschema"] = c["in"]["wschema"].clone(); ev["wsid"] = json!(wsid) }
                     ev
                 }).unwrap_or(json!({"fam": "derive", "name": "panic", "sid": sid}));
+                if ev["skip"] == true { continue }
                 if samples.len() < 2 { samples.push(ev.clone()) }
                 writeln!(out, "{}", ev).unwrap();
                 n += 1;
